@@ -18,6 +18,7 @@ mod histstack;
 mod integrity;
 mod keys;
 mod mem;
+mod memdims;
 mod repair;
 mod util;
 mod writer;
@@ -95,6 +96,8 @@ fn main() {
         "c08-wit" => fuzz::wit_child(args.get(2).map(|s| s.as_str()).unwrap_or("")),
         "c20" => capi::c20_cases(&mut rng, &tier, &mut out),
         "c15" => mem::c15_cases(&mut rng, &tier, &mut out),
+        "c15-dims" => memdims::c15_dims_cases(&mut rng, &tier, &mut out),
+        "c15-blocks" => memdims::c15_blocks_cases(&mut rng, &tier, &mut out),
         "c10" => history::c10_cases(&mut rng, &tier, &mut out),
         "c12" => history::c12_cases(&mut rng, &tier, &mut out),
         "c12-cli" => cli::c12_cli_cases(&mut rng, &tier, &mut out),
